@@ -173,7 +173,12 @@ def judge_canon(ctx, d, case, skel, layout, ops):
         if c03.crowded_dirs(root):
             ctx.discarded('more than one Manifest in a directory')
             return
-        dups = dups or bool(c03.pre_state(root)['dup_paths'])
+        pre = c03.pre_state(root)
+        if pre['same_dir_chain']:
+            ctx.discarded('canonical half needs <= 1 Manifest per directory')
+            shutil.rmtree(root, ignore_errors=True)
+            return
+        dups = dups or bool(pre['dup_paths'])
         kind, val = c03.do_update(root, dict(opt, wseed=wseed))
         if kind != 'ok':
             results.append(('fail', adapt.exc_key(val) if kind == 'exc' else str(val)))
@@ -228,7 +233,7 @@ def run_unit(u, ctx):
             nmut = rng.choice([0, 1, 2, 3])
             try:
                 case, layout, info = scenario.build(
-                    rng, root, PRIOR, nmut, {'p_split': 0, 'specials': False,
+                    rng, root, PRIOR, nmut, {'p_split': 0.15, 'specials': False,
                                              'symlinks': rng.random() < 0.3})
             except RuntimeError as exc:
                 ctx.discarded('generator: %s' % exc)
